@@ -217,7 +217,7 @@ def run_lines(binary, mode, cases, shards=NCPU):
     with cf.ThreadPoolExecutor(max_workers=n) as ex:
         outs = list(ex.map(_run_shard, [(binary, mode, p) for p in parts]))
     res = [o for part in outs for o in part]
-    # a request that ran into the per-request limit of the harness is asked once more, alone and with a limit twelve times as
+    # a request that ran into the per-request limit of the harness is asked once more, alone and with a limit six times as
     # long, before it counts as "does not return": on a loaded machine a heavy request (a large bundled map under an oracle that
     # re-decodes it hundreds of times) can exceed the default limit without hanging (seen once in a seed sweep run next to a
     # mutation campaign, DESIGN 6.2). A request that carries its own `limit=` (finding F23) is not asked again.
@@ -226,8 +226,8 @@ def run_lines(binary, mode, cases, shards=NCPU):
         if again:
             base = int(os.environ.get("VERIF_CASE_TIMEOUT", "10"))
             with cf.ThreadPoolExecutor(max_workers=min(4, len(again))) as ex:
-                redo = list(ex.map(_run_shard, [(binary, mode, [f"limit={12 * base} " + cases[i]]) for i in again[:16]]))
-            for i, r in zip(again[:16], redo):
+                redo = list(ex.map(_run_shard, [(binary, mode, [f"limit={6 * base} " + cases[i]]) for i in again[:4]]))
+            for i, r in zip(again[:4], redo):
                 if r and not r[0].startswith("TIMEOUT"):
                     res[i] = r[0]
     return res
